@@ -63,8 +63,33 @@ def make_scenario(job):
             send(b"0", [b"c0"])
         hold = []
         moved = set()
+        stop_at = ctx.choose("stop_at", 6) if job.get("stop") else None  # driving step at which the application stops the producer
+        st_stop = {"done": False, "frames": None}
+
+        def total_frames():
+            return sum(len(t.frames()) for t in cl.net.transports)
+
         for step in range(80):
-            if all(s["res"] for s in sends):
+            if job.get("stop") and not st_stop["done"] and step == stop_at and not all(s["res"] for s in sends):
+                ctx.log("stop()")
+                st_stop["done"] = True
+                outstanding = [s for s in sends if not s["res"]]
+                try:
+                    producer.stop()
+                except Exception as e:  # noqa
+                    ctx.check(False, "no-exception-escapes-producer", repr(e))
+                    return
+                for s in outstanding:
+                    ok_ = len(s["res"]) == 1 and isinstance(s["res"][0], Failure)
+                    ctx.check(ok_, "stop-fails-every-outstanding-send", "after stop(): %r" % (s["res"],))
+                st_stop["frames"] = sum(1 for t in cl.net.transports for f in t.frames() if f[:2] == b"\x00\x00")
+            if st_stop["done"]:
+                # nothing may be transmitted on behalf of a stopped producer (metadata traffic of the client is not the producer's)
+                now_ = sum(1 for t in cl.net.transports for f in t.frames() if f[:2] == b"\x00\x00")
+                ctx.check(now_ == st_stop["frames"], "nothing-transmitted-after-stop", "%d produce request(s) written after stop()" % (now_ - st_stop["frames"]))
+                if next_timer(clock) is None and not cl.net.pending_attempts() and not [x for x in hold if not getattr(x, "silent", False)]:
+                    break
+            elif all(s["res"] for s in sends):
                 break
 
             def behaviour(n):
@@ -110,7 +135,7 @@ def make_scenario(job):
             if isinstance(r, Failure):
                 ctx.log("send-failed", i, type(r.value).__name__)
                 ldr = cl.leaders[tp]
-                if bh[ldr] == "answer" and ldr not in moved and all(bh[n] in ("answer", "error") for n in bh):
+                if bh[ldr] == "answer" and ldr not in moved and all(bh[n] in ("answer", "error") for n in bh) and not st_stop["done"]:
                     ctx.check(False, "send-succeeds-when-the-leader-acknowledges", "send %d failed with %r although its leader acknowledges" % (i, r.value))
                 continue
             ctx.log("send-ok", i)
